@@ -333,6 +333,27 @@ func c04Chain(c *fw.Case) {
 			}
 		}
 		if r.Chance(1, 3) {
+			// the key in the signed data in another spelling of the same key model: the empty y of an OKP key left out (RFC 8037 style), an
+			// explicit empty nonce, members the model does not have (kid, use, alg, key_ops) - reveal value and commitment are those of the model
+			pk := map[string]interface{}{}
+			for kk, vv := range spec.Signer.JWK() {
+				pk[kk] = vv
+			}
+			if y, ok := pk["y"]; ok && y == "" {
+				delete(pk, "y")
+			}
+			if _, ok := pk["nonce"]; !ok && r.Bool() {
+				pk["nonce"] = ""
+			}
+			for _, extra := range [][2]string{{"kid", "key-1"}, {"use", "sig"}, {"alg", spec.Signer.Alg()}} {
+				if r.Bool() {
+					pk[extra[0]] = extra[1]
+				}
+			}
+			spec.PayloadKey = pk
+			c.Count("signed-key-in-another-spelling-of-the-model", 1)
+		}
+		if r.Chance(1, 3) {
 			// ... and members its operation type has no use for (a deactivate that names a next commitment or a delta hash, an update that
 			// names a recovery commitment): ignored, the operation reports what its type reports
 			own, inner := spec, spec.PayloadEdit
